@@ -220,6 +220,11 @@ def run(ctx):
                   "task.wait_until(state_trigger='True') never returns 'state' and an exception in such a condition is lost (legacy evaluates both)",
                   key=f"cycle started subscribed={subscribed}", node=program.func(uid), rel="decorators/state.py")
 
+    ctx.rule("R15.16", "new subsystem: a wait on a webhook id that another decorator (a trigger function, another wait) already uses is taken out of the id's subscribers when "
+             "it ends, and the last one to leave removes the registration (either order)", floor=2)
+    from .c08 import webhook_release_table
+    webhook_release_table(ctx, program, "R15.16")
+
     ctx.rule("R15.6", "legacy wait_until: a notification received during a pending state_hold is never taken for the hold's expiry (scripted histories)", floor=7)
     from .c05 import legacy_hold_rules
     legacy_hold_rules(ctx, program, "R15.6", uids=(LEGACY,))
